@@ -305,7 +305,13 @@ def literals(t, out):
 def strings_for(t, rng):
     lit = sorted(literals(t, set()))[:4]
     alpha = []
-    for c in lit + list("ab0_- \n\t") + [rng.choice(".*+?^$|")]:
+    extra = []
+    if any(x in repr(t) for x in ("\\\\s", "\\\\d", "\\\\w")):
+        # every whitespace character and the letters their escapes are spelled with
+        extra = ["\x0b", "\r", "\f", "v", "t", "n", "9", "Z"]
+        rng.shuffle(extra)
+        extra = extra[:4]
+    for c in lit + extra + list("ab0_- \n\t") + [rng.choice(".*+?^$|")]:
         if c not in alpha:
             alpha.append(c)
     alpha = alpha[:12]
